@@ -64,7 +64,9 @@ def KeyInts.serialize (k : KeyInts) : ByteStr := packMany [k.p, k.ga, k.gb, k.ha
 /-- `BonehPublicKey.unserialize` (FP2Value(p, a, b) reduces its coefficients modulo p) -/
 def KeyInts.unserialize (s : ByteStr) : Option (KeyInts × ByteStr) :=
   match unpackMany 5 s with
-  | ([p, ga, gb, ha, hb], rest) => some (⟨p, ga % p, gb % p, ha % p, hb % p⟩, rest)
+  | ([p, ga, gb, ha, hb], rest) =>
+    if p = 0 then none      -- FP2Value(0, …) raises ZeroDivisionError
+    else some (⟨p, ga % p, gb % p, ha % p, hb % p⟩, rest)
   | _ => none
 
 /-- `BonehPrivateKey.serialize` -/
@@ -73,7 +75,8 @@ def privSerialize (k : KeyInts) (n t1 : Nat) : ByteStr := k.serialize ++ packMan
 /-- `BonehPrivateKey.unserialize` -/
 def privUnserialize (s : ByteStr) : Option (KeyInts × Nat × Nat) :=
   match unpackMany 7 s with
-  | ([p, ga, gb, ha, hb, n, t1], _) => some (⟨p, ga % p, gb % p, ha % p, hb % p⟩, n, t1)
+  | ([p, ga, gb, ha, hb, n, t1], _) =>
+    if p = 0 then none else some (⟨p, ga % p, gb % p, ha % p, hb % p⟩, n, t1)
   | _ => none
 
 /-- one bit pair as six integers -/
